@@ -22,11 +22,15 @@ package logformat
 //@   ensures [generic-always-works] implies(logFormatName == "generic", isnil(result1))
 
 // Parser.MakeFields: never panics; on success the field map exists.
+// A parser may keep state of its own between lines (the csv parser keeps the
+// header); it changes nothing else. Every implementation in the package is
+// verified against this contract (props: implements).
 //@ iface Parser.MakeFields
-//@   assigns nothing
+//@   assigns reach(arg0)
 //@   ensures [fields] implies(isnil(result1), result0 != nil)
 
 //@ global-invariant [sentinel-made] !isnil(ErrIgnoreFields)
+//@ global-invariant [placeholder-errors-made] !isnil(ErrCustom1NotImplemented) && !isnil(ErrCustom2NotImplemented) && !isnil(ErrMimecastNotAvailable)
 
 // ---- csv (C05) --------------------------------------------------------------------
 // The first line a csv parser sees is the header: it names the columns. Every
